@@ -1237,6 +1237,38 @@ Proof.
   apply (c08_model_ok xfilter [] x_may x_add x_add_sound x_add_mono compact ops H).
 Qed.
 
+(* ... hence also the whole C07 monitor: refinement + no accepted retry of a stored pair *)
+Lemma worst_zero a b : worst a b = 0 -> a = 0 /\ b = 0.
+Proof.
+  unfold worst. destruct (a =? 1) eqn:Ea; [discriminate|]. destruct (b =? 1) eqn:Eb; [discriminate|]. cbn [orb]. lia.
+Qed.
+
+Lemma c08_zero_no_retry tr : forall s, c08_run s tr = 0 -> retry_run s tr = false.
+Proof.
+  induction tr as [|e tr IH]; intros s H; cbn [c08_run retry_run] in *; [reflexivity|].
+  destruct (spec_step s e) as [s'|]; [|discriminate H].
+  apply worst_zero in H. destruct H as [H1 H2]. rewrite (IH s' H2), orb_false_r.
+  assert (Hm : forall c mode recs, stored_pair_retry s c mode recs = true -> must_reject s c mode recs = true).
+  { intros c mode recs Hs. unfold stored_pair_retry in Hs. unfold must_reject.
+    rewrite Hs. rewrite !orb_true_r. reflexivity. }
+  destruct e as [o x ds]. destruct o; cbn [retry_accepted c08_step_code] in *; try reflexivity.
+  - destruct (out_accepted x) eqn:Ea; [|reflexivity]. cbn [andb].
+    destruct (stored_pair_retry s c mode recs) eqn:Es; [|reflexivity].
+    change (accepted x) with (out_accepted x) in H1. rewrite Ea, (Hm _ _ _ Es) in H1. discriminate H1.
+  - destruct (out_accepted x) eqn:Ea; [|reflexivity]. cbn [andb].
+    destruct (stored_pair_retry s c mode recs) eqn:Es; [|reflexivity].
+    change (accepted x) with (out_accepted x) in H1. rewrite Ea, (Hm _ _ _ Es) in H1. discriminate H1.
+Qed.
+
+Lemma c07_monitor_zero_on_model (compact : bool) (ops : list op) (kv : list kvent) :
+  Forall op_ok ops -> C07_monitor (C07Case compact (entries ops (snd (xrun compact ops))) kv) = 0.
+Proof.
+  intro H. unfold C07_monitor. cbn [c_steps].
+  rewrite (spec_run_on_model compact ops (Forall_impl _ op_ok_b H)).
+  pose proof (c08_monitor_zero_on_model compact ops kv H) as H8. unfold C08_monitor in H8. cbn [c_steps] in H8.
+  rewrite (c08_zero_no_retry _ _ H8). reflexivity.
+Qed.
+
 (* the production filter: two Bloom layers over arbitrary hash functions *)
 Lemma c08_bloom_model_ok (h1 h2 : bytes * bytes -> N) (compact : bool) (ops : list op) :
   Forall op_ok ops ->
